@@ -301,7 +301,7 @@ fn fraction_bits(qt: QT, p: u32) -> u32 {
 /// An image at or next to a rounding boundary: the midpoint of two adjacent posits (an exact
 /// tie), or an exact posit value, plus/minus nothing, one unit, or a single far-away bit.
 fn boundary_image(rng: &mut Prng, qt: QT) -> Option<Img> {
-    let reg = [0usize, 1, 1, 2, 3, 4][rng.below(6) as usize];
+    let reg = [0usize, 1, 1, 2, 2, 3, 4][rng.below(7) as usize];
     let mut p = operand(rng, qt, reg, &[], 0);
     if qt != QT::Q8 && rng.chance(1, 4) {
         // limb-aligned: a posit whose leading bit sits on the top bit of a 64-bit limb of the quire
@@ -343,7 +343,9 @@ fn boundary_image(rng: &mut Prng, qt: QT) -> Option<Img> {
             let h = base.top_bit().unwrap_or(0);
             let pos = match rng.below(4) {
                 0 | 1 => rng.below(g.max(1) as u64) as u32,
-                2 => h.saturating_sub(62 + rng.below(5) as u32),
+                // 62..66 places below the leading bit; half of the time exactly 63 or 64 (the last bit of
+                // the 64-bit window the conversions look at, and the first bit below it)
+                2 => h.saturating_sub(if rng.chance(1, 2) { 63 + rng.below(2) as u32 } else { 62 + rng.below(5) as u32 }),
                 _ => (64 * rng.below(8) as u32 + [0u32, 1, 63][rng.below(3) as usize]).min(g.saturating_sub(1)),
             };
             Wide::one_shl(pos.min(g.saturating_sub(1)))
